@@ -247,3 +247,40 @@ func (e *Engine) renamesOf(fn *ssa.Function) map[string]string {
 	}
 	return out
 }
+
+// migratedName: a local the verified function fn used to have (recorded under `was`) that now lives in the inlined helper
+// (an extract-function refactoring may also have renamed it): the helper's local with the same kinds and types of SSA
+// values, ordinals ignored (they restart in the helper). Unique match or nothing.
+func (e *Engine) migratedName(fn, helper *ssa.Function, was string) string {
+	old := e.recorded[shortTypeKey(e.funcKey(fn))]
+	if old == nil || helper == nil {
+		return ""
+	}
+	sig, ok := old.Locals[was]
+	if !ok {
+		return ""
+	}
+	strip := func(ss []string) string {
+		var out []string
+		for _, s := range ss {
+			if i := strings.LastIndex(s, "|"); i >= 0 {
+				s = s[:i]
+			}
+			out = append(out, s)
+		}
+		sort.Strings(out)
+		return strings.Join(out, ";")
+	}
+	want := strip(sig)
+	match, n := "", 0
+	for now, s2 := range localSigs(helper) {
+		if strip(s2) == want {
+			match = now
+			n++
+		}
+	}
+	if n == 1 {
+		return match
+	}
+	return ""
+}
